@@ -676,6 +676,12 @@ func (l *lexer) lexToken(tok int) action {
 				l.error(l.pos, "syntax error: unexpected ')'")
 				return nil
 			}
+			if l.heredoc.exists() {
+				// the command substitution ended on the line that
+				// announces a here-document
+				l.error(l.pos, "syntax error: here-document delimited by EOF")
+				return nil
+			}
 			l.emit(tok)
 			l.stack = nil
 			break
